@@ -129,7 +129,9 @@ CfgZeroQ(n) == { cf \in CfgZero(n) : cf.subs \in { Uniform(n, "none"), Uniform(n
                                       /\ cf.consts \in { <<>>, <<"g", "feedratio">> } }
 \* quick tier: several families in one run (fewer TLC launches); which family applies depends on the state
 CfgAliasQ(n) == { cf \in CfgAlias(n) : cf.symorder \in {<<>>, Rev(subst)} /\ cf.subs = Uniform(n, "none") }
-CfgMainQ(n) == IF hist = <<>> THEN CfgAll(n) \cup CfgUk2(n) \cup CfgFormsQ(n) \cup CfgPFull(n) \cup CfgMultiExpr(n) \cup CfgAliasQ(n)
+\* (expression substitutions are exercised by CfgMultiExpr / CfgPFull at quick tier)
+CfgAllQ(n) == { cf \in CfgAll(n) : cf.subs \in { Uniform(n, "none"), Uniform(n, "num"), FirstOnly(n, "num", "none") } }
+CfgMainQ(n) == IF hist = <<>> THEN CfgAllQ(n) \cup CfgUk2(n) \cup CfgFormsQ(n) \cup CfgPFull(n) \cup CfgMultiExpr(n) \cup CfgAliasQ(n)
                ELSE CfgThree(n)
 CfgExtraT(n) == CfgMultiExpr(n) \cup CfgAlias(n) \cup CfgPFull(n)
 CfgFeedsQ(n) == CfgMixQ(n) \cup (IF feed.usermap THEN {} ELSE CfgConstQ(n))
